@@ -1,6 +1,7 @@
 package main
 
 import (
+	"go/token"
 	"regexp"
 	"strings"
 
@@ -436,12 +437,28 @@ func c11DelegateThroughHelper(c *Ctx, fl *Flow, delegName string, check, insert 
 // bytes, entries [(2,B),(1,A)] and [(1,B),(2,A)] would share a key.
 func c11Pairing(c *Ctx) {
 	p := c.P
+	elemOfIndex := regexp.MustCompile(`^invoke \(hs/security/crypto\.Signature\)\.(Signer|ToBytes)\(p0\[(phi@b\d+i\d+)\]\)$`)
 	elemOfRange := regexp.MustCompile(`^invoke \(hs/security/crypto\.Signature\)\.(Signer|ToBytes)\(p0\[\((phi@b\d+i\d+) \+ c:1\)\]\)$`)
 	rangeIdx := func(fn *ssa.Function, phiKey string, k *Keyer) bool {
 		ok := false
 		eachInstr(fn, func(in ssa.Instruction) {
 			if ph, isPhi := in.(*ssa.Phi); isPhi && k.Key(ph) == phiKey && ph.Comment == "rangeindex" {
 				ok = true
+			}
+			// an explicit ascending index: i := 0; …; i++
+			if ph, isPhi := in.(*ssa.Phi); isPhi && k.Key(ph) == phiKey && len(ph.Edges) == 2 {
+				init, step := false, false
+				for _, e := range ph.Edges {
+					if isIntConst(e, 0) {
+						init = true
+					}
+					if bo, isBo := e.(*ssa.BinOp); isBo && bo.Op == token.ADD && bo.X == ssa.Value(ph) && isIntConst(bo.Y, 1) {
+						step = true
+					}
+				}
+				if init && step {
+					ok = true
+				}
 			}
 		})
 		return ok
@@ -461,10 +478,52 @@ func c11Pairing(c *Ctx) {
 			}
 			n++
 			m := elemOfRange.FindStringSubmatch(k.Key(call.Call.Args[0]))
+			if m == nil {
+				m = elemOfIndex.FindStringSubmatch(k.Key(call.Call.Args[0]))
+			}
 			if m == nil || m[1] != "Signer" || !rangeIdx(fn, m[2], k) {
 				bad = "the callback receives " + k.Key(call.Call.Args[0]) + ", not the signer of the entry at the range position"
 			}
 		})
+		if n == 0 {
+			// one of the two iterations written in terms of the other (`sig.RangeWhile(func(id) bool { f(id); return true })`):
+			// the order is the delegate's, which is judged on its own
+			other := map[string]string{"ForEach": "RangeWhile", "RangeWhile": "ForEach"}[name]
+			if of := p.Method("security/crypto", "Multi", other); of != nil {
+				for _, cs := range callsIn(fn, false, func(cc *ssa.CallCommon) bool {
+					return calleeIs(cc, of) || (cc.StaticCallee() != nil && cc.StaticCallee().Origin() == of)
+				}) {
+					if len(cs.Common().Args) != 2 || k.Key(cs.Common().Args[0]) != "p0" {
+						continue
+					}
+					cl := funcOfValue(cs.Common().Args[1])
+					if cl == nil || cl.Parent() != fn {
+						continue
+					}
+					ck := NewKeyer(p, cl)
+					nf, okArg := 0, true
+					eachInstr(cl, func(x ssa.Instruction) {
+						c2, ok := x.(*ssa.Call)
+						if !ok || c2.Call.IsInvoke() {
+							return
+						}
+						cv := c2.Call.Value
+						if u, isU := cv.(*ssa.UnOp); isU {
+							cv = u.X // the callback captured by reference
+						}
+						if fv, isFV := cv.(*ssa.FreeVar); isFV && fv.Name() == fn.Params[1].Name() {
+							nf++
+							if len(c2.Call.Args) != 1 || ck.Key(c2.Call.Args[0]) != "p0" {
+								okArg = false
+							}
+						}
+					})
+					if nf == 1 && okArg {
+						n = 1
+					}
+				}
+			}
+		}
 		c.Check(n == 1 && bad == "", "C11.6", "Multi."+name+": ids are enumerated in slice order", p.FuncPos(fn),
 			"f(sig[i].Signer()) for i ascending over the receiver: the same order in which ToBytes concatenates the signatures, so id i and signature i of the cache key belong together",
 			map[bool]string{true: bad, false: "callback invocations found: " + itoa(n)}[bad != ""])
